@@ -270,6 +270,11 @@ func genStream(rng *rand.Rand, p E2E, id uint64, pushes []int) *StreamPlan {
 			st.Kind = svc.KindBurst
 			st.N = uint32(rng.Intn(5))
 		}
+		if p.Profile == "streams" && rng.Intn(12) == 0 {
+			// a message with an empty payload between the others
+			sp.Steps = append(sp.Steps, StreamStep{Kind: svc.KindEmpty})
+			continue
+		}
 		switch rng.Intn(10) {
 		case 0:
 			st.Size = svc.StreamHdr
@@ -417,7 +422,11 @@ func (sp *StreamPlan) run(c *e2eConn, p E2E, retain bool) {
 	write := func(i int, s StreamStep) bool {
 		sp.setStage(fmt.Sprintf("write %d", i))
 		box := svc.NewBox(codec)
-		box.Set(svc.StreamMsg(sp.ID, svc.DirUp, sp.ups, s.Kind, s.N, s.Size))
+		if s.Kind == svc.KindEmpty {
+			box.Set([]byte{})
+		} else {
+			box.Set(svc.StreamMsg(sp.ID, svc.DirUp, sp.ups, s.Kind, s.N, s.Size))
+		}
 		sp.ups++
 		if err := st.WriteMessage(box.Ptr()); err != nil {
 			sp.Problem = fmt.Sprintf("WriteMessage %d failed on an open stream: %v", i, err)
@@ -1565,6 +1574,12 @@ func judgeStreams(out *Outcome, p E2E, conns []*e2eConn, srecs []svc.StreamRec) 
 				for i, m := range sr.Reads {
 					if sbad != "" {
 						break
+					}
+					if sp.Steps[i].Kind == svc.KindEmpty {
+						if m.Len != 0 {
+							sbad = fmt.Sprintf("server read %d should be the empty message the client wrote but has %d bytes (stream=%d index=%d ok=%v)", i, m.Len, m.Info.Stream, m.Info.Index, m.Info.OK)
+						}
+						continue
 					}
 					if !m.Info.OK || m.Info.Stream != sp.ID || m.Info.Dir != svc.DirUp || m.Info.Index != uint32(i) || m.Len != max(sp.Steps[i].Size, svc.StreamHdr) {
 						sbad = fmt.Sprintf("server read %d is stream=%d dir=%q index=%d len=%d ok=%v", i, m.Info.Stream, m.Info.Dir, m.Info.Index, m.Len, m.Info.OK)
